@@ -44,7 +44,7 @@ def all_entries() -> list:
 
 
 ENTRIES = all_entries()
-BREAKER_ENTRIES = [f"{a}Policy{v}.{m}" for a in ("", "Async") for v, ms in (("", ("call", "execute")), (".context", ("call",))) for m in ms]
+BREAKER_ENTRIES = [f"{a}Policy{v}.{m}" for a in ("", "Async") for v, ms in (("", ("call", "execute")), (".context", ("call",)), (".proxy", ("call", "execute"))) for m in ms]
 NORETRY_ENTRIES = [f"{a}Policy.noretry.{m}" for a in ("", "Async") for m in ("call", "execute")]
 
 
@@ -113,6 +113,47 @@ def _family(entry: str) -> str:
 
 
 def fix_for_decorator(case: dict) -> dict:
+    return case
+
+
+FAULT_SITES = ["abort_if", "on_attempt_start", "on_attempt_end", "classifier", "result_classifier", "strategy", "sleeper", "handler"]
+
+
+def check_twins_under_fault(case: dict) -> Verdict:
+    """A caller-supplied callback raises an ordinary exception at its j-th invocation: whatever the
+    library makes of that, the sync and the async twin of each entry point must make the same of it."""
+    v = Verdict()
+    out: list = []
+    site, j = case["fault"]
+    for api in ("Retry", "Policy", "RetryPolicy"):
+        for mode in ("call", "execute"):
+            a, b = f"{api}.{mode}", f"Async{api}.{mode}"
+            res = []
+            for e in (a, b):
+                env, cvs = C.run(case, e, faults={(site, j): "CallbackFault"})
+                cv = cvs[0]
+                proj = [x for x in C.projection(cv)[:-1] if x[0] not in ("'classify'", "'rclassify'", "att_start", "att_end")]
+                res.append((proj, norm_final(cv), any(ev[0] == "fault" for ev in env.trace)))
+                v.evals += 1
+            (pa, fa, hit_a), (pb, fb, hit_b) = res
+            if pa != pb:
+                i = next((i for i, (x, y) in enumerate(zip(pa, pb)) if x != y), min(len(pa), len(pb)))
+                out.append((f"C12:fault-twins:{site}:{mode}", f"{a}~{b} with {site}#{j} raising: traces differ at event {i}: {pa[i:i+2]} vs {pb[i:i+2]} (lengths {len(pa)}/{len(pb)})"))
+            elif not finals_agree(fa, fb):
+                out.append((f"C12:fault-twins:{site}:{mode}:final", f"{a}~{b} with {site}#{j} raising: same trace but results differ: {fa} vs {fb}"))
+            v.nontrivial = v.nontrivial or hit_a
+    v.violations = out
+    v.tag("fault-site:" + site)
+    return v
+
+
+@st.composite
+def fault_case(draw):
+    case = draw(gen.retry_case({**PROFILE, "placements": False, "attempt_timeout": 0.0, "abort": 0.5}))
+    case["placement"] = {"attempt_hooks": "call", "sleeper_flavour": "async", "before_flavour": "async"}
+    case["fault"] = [draw(st.sampled_from(FAULT_SITES)), draw(st.sampled_from([0, 0, 1, 2, 3]))]
+    if case["fault"][0] == "abort_if" and case["calls"][0].get("abort") is None:
+        case["calls"][0]["poll"] = True
     return case
 
 
@@ -274,6 +315,7 @@ PROP = Property(
     ),
     streams=[
         Stream("pairwise", check, strategy=case_st(), quick=4000, thorough=60000),
+        Stream("twins_under_callback_fault", check_twins_under_fault, strategy=fault_case(), quick=1200, thorough=30000),
         Stream("live_attempt_timeout", check_live_timeout, strategy=live_timeout_case(), quick=32, thorough=300, per_shard_min=2),
     ],
 )
